@@ -196,3 +196,37 @@ def signdiff_sites(fn):
             if len(ops) == 2 and all(o and not o[1] and o[0] >= 32 for o in ops):
                 out.append((e, fn.render(n)))
     return out
+
+
+def reaches_avoiding(fn, a, b, avoid=()):
+    """control flows from element a (executed) to element b without executing any element of `avoid` in between"""
+    av = {}
+    for x in avoid:
+        av.setdefault(fn.block_of[x['i']], []).append(fn.pos_of[x['i']])
+    ba, pa = fn.block_of[a['i']], fn.pos_of[a['i']]
+    bb, pb = fn.block_of[b['i']], fn.pos_of[b['i']]
+
+    def scan(blk, start):
+        """(reached b?, falls through to successors?) scanning block blk from position start"""
+        stops = sorted(p for p in av.get(blk, []) if p >= start)
+        stop = stops[0] if stops else None
+        if blk == bb and pb >= start and (stop is None or pb <= stop):
+            return True, False
+        return False, stop is None
+    hit, through = scan(ba, pa + 1)
+    if hit:
+        return True
+    if not through:
+        return False
+    seen, st = set(), [s for s in fn.succs(ba) if s is not None]
+    while st:
+        x = st.pop()
+        if x in seen:
+            continue
+        seen.add(x)
+        hit, through = scan(x, 0)
+        if hit:
+            return True
+        if through:
+            st.extend(s for s in fn.succs(x) if s is not None)
+    return False
